@@ -278,9 +278,11 @@ structure View where
   listeners : List VListener
   /-- addresses that own a certificate bucket -/
   certBuckets : List Nat
+  /-- (address, certificate id): `certificates[address][fingerprint]` -/
+  certs : List (Nat × Nat)
 deriving DecidableEq, Repr
 
-def View.empty : View := ⟨[], [], [], [], [], [], [], []⟩
+def View.empty : View := ⟨[], [], [], [], [], [], [], [], []⟩
 
 /-- one command, with the facts about its payload that decide any branch -/
 inductive Op
@@ -309,12 +311,18 @@ inductive Op
   | removeFront (tls : Bool) (f : Front) (badRegex equals badPos : Bool)
   | addL4Front (udp : Bool) (a c : Nat)
   | removeL4Front (udp : Bool) (a c : Nat)
-  | addCert (a : Nat) (valid : Bool)
-  | removeCert (a : Nat) (hexValid : Bool)
-  | replaceCert (a : Nat) (hexValid newValid : Bool)
+  /-- `id`: which certificate (its fingerprint) -/
+  | addCert (a : Nat) (id : Nat) (valid : Bool)
+  | removeCert (a : Nat) (id : Nat) (hexValid : Bool)
+  | replaceCert (a : Nat) (old : Nat) (hexValid : Bool) (new : Nat) (newValid : Bool)
   /-- QueryCertificatesFromWorkers: with a fingerprint filter (answered from the
-      view; `found`) or without (answered by the HTTPS proxy) -/
-  | queryCerts (fingerprint found : Bool)
+      view: found iff some address holds certificate `id`; mode 1) or without (mode 0
+      all, mode 2 by domain: answered by the HTTPS proxy) -/
+  | queryCerts (mode : Nat) (id : Nat)
+  /-- SetMetricDetail: `client` lease key (`longId`: longer than 64 bytes), `clear`,
+      `detail` 0 absent / 1 valid / 2 not a `MetricDetail`, `ttlOver`: ttl above
+      LEASE_TTL_MAX, peer binding (`known`: pid and session ulid both present; `peer`) -/
+  | setDetail (client : Nat) (longId clear : Bool) (detail : Nat) (ttlOver known : Bool) (peer : Nat)
   | queryCluster (c : Nat)
 deriving DecidableEq, Repr
 
@@ -345,6 +353,7 @@ def Op.kind : Op → Kind
   | .removeCert .. => .removeCertificate
   | .replaceCert .. => .replaceCertificate
   | .queryCerts .. => .queryCertificatesFromWorkers
+  | .setDetail .. => .setMetricDetail
   | .queryCluster .. => .queryClusterById
 
 def frontKeyEq (f g : Front) : Bool := f.addr == g.addr && f.key == g.key
@@ -364,6 +373,7 @@ def dispatchView (v : View) (op : Op) : View × Bool :=
   match op with
   | .plain k _ => (v, Consts.wkDispatchPassthrough.contains k.nameBytes)
   | .queryCerts .. => (v, true)
+  | .setDetail .. => (v, true)
   | .queryCluster _ => (v, true)
   | .addCluster c hcValid _ knobs =>
     if hcValid then ({ v with clusters := (c, knobs) :: v.clusters.filter (·.1 ≠ c) }, true)
@@ -421,11 +431,17 @@ def dispatchView (v : View) (op : Op) : View × Bool :=
       (if udp then { v with udpFronts := v.udpFronts.filter (· ≠ (c, a)) }
        else { v with tcpFronts := v.tcpFronts.filter (· ≠ (c, a)) }, true)
     else (v, false)
-  | .addCert a valid =>
-    if valid then ({ v with certBuckets := a :: v.certBuckets.filter (· ≠ a) }, true) else (v, false)
-  | .removeCert _ hexValid => (v, hexValid)
-  | .replaceCert a hexValid newValid =>
-    (v, hexValid && v.certBuckets.contains a && newValid)
+  | .addCert a id valid =>
+    if valid then
+      ({ v with certBuckets := a :: v.certBuckets.filter (· ≠ a),
+                certs := (a, id) :: v.certs.filter (· ≠ (a, id)) }, true)
+    else (v, false)
+  | .removeCert a id hexValid =>
+    if hexValid then ({ v with certs := v.certs.filter (· ≠ (a, id)) }, true) else (v, false)
+  | .replaceCert a old hexValid new newValid =>
+    if hexValid && v.certBuckets.contains a && newValid then
+      ({ v with certs := (a, new) :: (v.certs.filter (· ≠ (a, old))).filter (· ≠ (a, new)) }, true)
+    else (v, false)
 
 /-! ## the worker -/
 
@@ -455,6 +471,10 @@ structure WState where
   /-- `HttpProxy::clusters`: the cluster configurations the plain-HTTP proxy routes
       with (id, knobs); an AddCluster the proxy refuses does not reach it -/
   httpClusters : List (Nat × Nat)
+  /-- the metric-detail lease table: (client id, binding known, peer) -/
+  leases : List (Nat × Bool × Nat)
+  /-- `max_connections` (decides `at_capacity`) -/
+  maxConn : Nat
   /-- slab keys holding a `ListenSession` placeholder -/
   slab : List Nat
   /-- the slab's free list (last freed first) -/
@@ -469,7 +489,36 @@ structure WState where
   stopped : Bool
 deriving DecidableEq, Repr
 
-def WState.init : WState := ⟨View.empty, [], [], [], [], 3, 0, false⟩
+def WState.init : WState := ⟨View.empty, [], [], [], 10000, [], [], 3, 0, false⟩
+
+/-- a worker started with `max_connections = n` -/
+def WState.initWith (n : Nat) : WState := { WState.init with maxConn := n }
+
+/-- `SessionManager::at_capacity`: `slab.len() >= 10 + 2 * max_connections` (no client
+    session open: the slab holds the 3 system entries and the listener placeholders) -/
+def atCapacity (s : WState) : Bool :=
+  3 + s.slab.length ≥ Consts.sessAcceptBase + Consts.sessAcceptFactor * s.maxConn
+
+/-- SetMetricDetail as coded in `Server::notify` + `Aggregator::lease_apply/lease_clear`:
+    the new lease table and whether the answer is OK -/
+def setDetailStep (leases : List (Nat × Bool × Nat)) (client : Nat) (longId clear : Bool)
+    (detail : Nat) (ttlOver known : Bool) (peer : Nat) : List (Nat × Bool × Nat) × Bool :=
+  let entry := leases.find? (·.1 == client)
+  -- `entry.binding.is_known() && !entry.binding.matches(&presented)`
+  let refused := match entry with
+    | some e => e.2.1 && !(known && e.2.2 == peer)
+    | none => false
+  if clear then
+    if longId then (leases, false)
+    else match entry with
+      | none => (leases, true)
+      | some _ => if refused then (leases, false) else (leases.filter (·.1 != client), true)
+  else if detail != 1 then (leases, false)
+  else if ttlOver then (leases, false)
+  else if longId then (leases, false)
+  else if entry.isNone && leases.length ≥ Consts.wkLeaseTableCap then (leases, false)
+  else if refused then (leases, false)
+  else ((client, known, peer) :: leases.filter (·.1 != client), true)
 
 def findL (s : WState) (t : LType) (a : Nat) : Option PListener :=
   s.listeners.find? fun l => l.ty == t && l.addr == a
@@ -563,7 +612,11 @@ def proxyStep (s : WState) (op : Op) : WState × Env :=
        envOf ok false true allOk true none false)
     | .status => (s, envOf ok false true allOk true none false)
     | _ => (s, envOf ok false true unsupported true none false)
-  | .queryCerts fingerprint found => (s, envOf found fingerprint true allOk true none false)
+  | .queryCerts mode id =>
+    (s, envOf (s.view.certs.any (·.2 == id)) (mode == 1) true allOk true none false)
+  | .setDetail client longId clear detail ttlOver known peer =>
+    let r := setDetailStep s.leases client longId clear detail ttlOver known peer
+    ({ s with leases := r.1 }, envOf r.2 false true unsupported true none false)
   | .queryCluster _ => (s, envOf true false true unsupported true none false)
   | .addCluster c hcValid tplValid knobs =>
     -- `add_cluster_answers` runs once per listener of the HTTP / HTTPS proxy
@@ -583,7 +636,8 @@ def proxyStep (s : WState) (op : Op) : WState × Env :=
     let tok := vacantKey s
     -- `self.listeners.entry(token)`: occupied when a deactivated listener of the
     -- same proxy still owns the recycled token
-    if valid && !(s.listeners.any fun l => l.ty == t && l.token == tok) then
+    -- "session list is full, cannot add a listener" comes first
+    if !atCapacity s && valid && !(s.listeners.any fun l => l.ty == t && l.token == tok) then
       ({ s with baseOff := s.baseOff + 1,
                 listeners := ⟨t, a, tok, false, [], none⟩ :: s.listeners,
                 slab := tok :: s.slab,
@@ -666,20 +720,20 @@ def proxyStep (s : WState) (op : Op) : WState × Env :=
     match findL s t a with
     | some _ => (mapL s t a fun l => { l with cluster := none }, envOf true false true allOk true none false)
     | none => (s, envOf true false true (setProxy t .failure) true none false)
-  | .addCert a valid =>
+  | .addCert a _ valid =>
     (s, envOf true false true
           (if valid && (findL s .https a).isSome then allOk else setProxy .https .failure) true none false)
-  | .removeCert a hexValid =>
+  | .removeCert a _ hexValid =>
     (s, envOf true false true
           (if hexValid && (findL s .https a).isSome then allOk else setProxy .https .failure) true none false)
-  | .replaceCert a _ newValid =>
+  | .replaceCert a _ _ _ newValid =>
     (s, envOf true false true
           (if newValid && (findL s .https a).isSome then allOk else setProxy .https .failure) true none false)
 
 /-- QueryCertificatesFromWorkers with a fingerprint filter is answered by `notify` itself -/
 def fingerprintOf (op : Op) : Bool :=
   match op with
-  | .queryCerts f _ => f
+  | .queryCerts mode _ => mode == 1
   | _ => false
 
 /-- one command on a running worker -/
